@@ -54,7 +54,8 @@ def lambda_params(n):
 
 
 def all_decls(decls):
-    """Flatten namespaces / linkage specs; yields (decl, namespace path)."""
+    """Flatten namespaces / linkage specs; yields (decl, namespace path).  The pruned IR names a
+    file only where it changes, so the enclosing declaration's file is pushed down."""
     stack = [(d, ()) for d in reversed(decls)]
     while stack:
         d, ns = stack.pop()
@@ -63,8 +64,27 @@ def all_decls(decls):
         yield d, ns
         if d.get("k") in ("NamespaceDecl", "LinkageSpecDecl"):
             sub = ns + ((d.get("n") or "<anon>"),) if d.get("k") == "NamespaceDecl" else ns
+            f = d.get("file") or d.get("nfile")
             for c in reversed(cir.kids(d)):
+                if c and f and c.get("file") is None:
+                    c["file"] = f
                 stack.append((c, sub))
+
+
+def cond_core(n):
+    """(core condition, negated) with C++20 rewritten operators (`a != b` as `!(a == b)`) and `!` removed."""
+    neg = False
+    n = skip(n)
+    while n is not None:
+        if n.get("k") == "CXXRewrittenBinaryOperator":
+            n = skip(cir.kids(n)[0])
+            continue
+        if n.get("k") == "UnaryOperator" and n.get("op") == "!":
+            neg = not neg
+            n = skip(cir.kids(n)[0])
+            continue
+        break
+    return n, neg
 
 
 # ----------------------------------------------------------------------------- expression text
@@ -76,18 +96,35 @@ def real_args(n):
     return [a for a in cir.kids(n) if a is not None and a.get("k") != "CXXDefaultArgExpr"]
 
 
+def is_conversion_construct(n):
+    """Single-argument construction that only re-wraps a value: std:: value types (string, string_view, ...)
+    and copy/move constructions.  Constructions of user classes from other types are real operations."""
+    a = real_args(n)
+    if len(a) != 1:
+        return False
+    t = strip_cvref(n.get("dt") or n.get("t"))
+    t0 = strip_cvref(n.get("t"))
+    if t.startswith("std::") or t0.startswith("std::") or "basic_string" in t:
+        return True
+    m = re.match(r"^void \((.*)\)", n.get("ctort") or "")
+    if m:
+        p = strip_cvref(m.group(1)).replace("&&", "").strip()
+        if p in (t, t0):
+            return True
+    at = strip_cvref(a[0].get("t"))
+    return at in (t, t0)
+
+
 def skip(n):
-    """Strip parens, casts, temporaries and single-argument copy/conversion constructions."""
+    """Strip parens, casts, temporaries and value-preserving single-argument constructions."""
     while n is not None:
         n2 = cir.strip(n)
         if n2 is None:
             return n
         n = n2
-        if n.get("k") in ("CXXConstructExpr", "CXXTemporaryObjectExpr"):
-            a = real_args(n)
-            if len(a) == 1:
-                n = a[0]
-                continue
+        if n.get("k") in ("CXXConstructExpr", "CXXTemporaryObjectExpr") and is_conversion_construct(n):
+            n = real_args(n)[0]
+            continue
         return n
     return n
 
@@ -395,12 +432,14 @@ class ClassModel:
                         self.methods[m.get("id")] = mm
             elif k == "FriendDecl":
                 self.friends.append(c.get("t") or "?")
-        # out-of-line definitions
+        # out-of-line definitions (a later reference may name the definition instead of the in-class declaration)
+        self.by_id = dict(self.methods)
         for d, ns in flat:
             if d.get("k") in METHOD_KINDS and d.get("prev") in self.methods and cir.body(d) is not None:
                 m = self.methods[d["prev"]]
                 d.setdefault("file", d.get("nfile") or tu_file)
                 m.node = d
+                self.by_id[d.get("id")] = m
         for m in self.methods.values():
             if m.node is not None and m.node.get("file") is None:
                 m.node["file"] = self.file
@@ -438,7 +477,7 @@ class ClassModel:
         f = cir.strip(c[0]) if c else None
         if f is None or f.get("k") != "MemberExpr":
             return None
-        return self.methods.get(f.get("mid"))
+        return self.by_id.get(f.get("mid"))
 
     # -- field access summaries
     def fields_read_by(self, method):
